@@ -31,6 +31,8 @@ fn now_ms() -> u64 {
 
 fn install_hooks() {
     std::panic::set_hook(Box::new(|info| {
+        // a panic is not a hang: stop the watchdog clock while the (slow) backtrace is taken
+        CASE_START_MS.store(0, Ordering::SeqCst);
         let loc = info.location().map(|l| l.file().to_string()).unwrap_or_default();
         let msg = if let Some(s) = info.payload().downcast_ref::<&str>() {
             s.to_string()
@@ -1461,7 +1463,8 @@ const FIXED: &[&str] = &[
     "feature liga { sub a' from [b c]; sub a b' c' lookup L1 by d; } liga;",
     "feature liga { sub a-z from [a u]; } liga;",
     "table hhea { LineGap 32768; } hhea;",
-    "table BASE { HorizAxis.BaseScriptList latn toolong1 -120 0; } BASE;",
+    "table BASE { HorizAxis.BaseTagList ideo romn; HorizAxis.BaseScriptList latn toolong -120 0; } BASE;",
+    "feature ss01 { include(inc1.fea);",
     "feature kern { pos a ${a #é\n b-c}; } kern;",
     "feature kern { pos a ${pad -2}; } kern;",
     "\"unterminated",
@@ -1652,6 +1655,23 @@ fn main() {
     }
 
     // ---- stream I -----------------------------------------------------------
+    {
+        // fixed: the shared chain is reached by the short path first (56 files deep by the long one)
+        let (a, b) = (28usize, 27usize);
+        let n = 1 + a + b;
+        let shared = 1 + a;
+        let mut e = vec![vec![]; n];
+        e[0].push(shared);
+        e[0].push(1);
+        for i in 1..a {
+            e[i].push(i + 1);
+        }
+        e[a].push(shared);
+        for i in shared..n - 1 {
+            e[i].push(i + 1);
+        }
+        include_case(&mut id, &IncGraph { n, edges: e }, "twopaths", &mut stats);
+    }
     for _ in 0..(n / 3).max(30) {
         let (g, kind) = gen_graph(&mut rng);
         include_case(&mut id, &g, kind, &mut stats);
